@@ -55,6 +55,9 @@ impl Op {
     }
 }
 
+/// print "RUN <index>" to stderr before every run (lets a memory checker's report be attributed to a run)
+pub static PROGRESS: std::sync::atomic::AtomicBool = std::sync::atomic::AtomicBool::new(false);
+
 /// set in a process that was started to judge one trace (so that it judges it itself)
 pub static IN_CHILD: std::sync::atomic::AtomicBool = std::sync::atomic::AtomicBool::new(false);
 
@@ -512,6 +515,9 @@ pub fn run_batch<S: Scenario>(s: &S, cfg: &BatchCfg) -> BatchResult {
                     let seed = run_seed(cfg.seed, s.name().split('@').next().unwrap(), r);
                     if threads == 1 {
                         CUR_RUN.store(r, std::sync::atomic::Ordering::Relaxed);
+                        if PROGRESS.load(std::sync::atomic::Ordering::Relaxed) {
+                            eprintln!("RUN {}", r);
+                        }
                     }
                     let out = run_generated_at(s, &cfg.mix, seed, r, cfg.max_ops, &mut res.stats);
                     res.runs += 1;
